@@ -513,6 +513,8 @@ class StrModel:
             return self.m_begin
         if name == 'back':
             return self.m_back
+        if name == 'find' and sig.startswith('(char, unsigned long)'):
+            return self.m_find_char
 
         def unmodelled(interp, st, i, args, tail=tail):
             raise AnalysisBroken('std::string::%s is called at %s: this member is not summarised' % (tail, i.where()))
@@ -640,6 +642,62 @@ class StrModel:
 
     def m_index(self, interp, st, i, args):
         return [(st, PtrVal(self.data_obj(st, args[0]).id, st.force_u(args[1])))]
+
+    def m_find_char(self, interp, st, i, args):
+        """find(c, pos): the first position >= pos holding c, else npos.  On a text of constant length whose characters are
+        cells the outcome is split position by position (found here / not here); otherwise the two outcomes are 'some
+        position below size()' and npos.  The characters up to the result are read (in ascending order)."""
+        this, c, pos = args[0], args[1], st.force_u(args[2])
+        n = self.length(st, this)
+        o = self.data_obj(st, this)
+        npos = mk_const(64, (1 << 64) - 1)
+        if n.is_const() and pos.is_const() and isinstance(c, IntVal):
+            cells = [st.mem.get((o.id, j, 1)) for j in range(pos.c, n.c)]
+            if all(isinstance(v, IntVal) and v.w == c.w for v in cells):
+                out = []
+                cur = [st]
+                for j, v in zip(range(pos.c, n.c), cells):
+                    nxt = []
+                    for s_ in cur:
+                        interp.check_access(s_, PtrVal(o.id, Lin(j)), 1, i, 'load')
+                        if s_.bottom:
+                            continue
+                        s2 = s_.fork()
+                        for t in interp.assume(s_, CondVal('cmp', 'eq', v, c, None, None), True):
+                            out.append((t, mk_const(64, j)))
+                        nxt.extend(interp.assume(s2, CondVal('cmp', 'eq', v, c, None, None), False))
+                    cur = nxt
+                out.extend((s_, npos) for s_ in cur)
+                return out
+        out = []
+        miss = st.fork()
+        hit = st
+        r = hit.fresh_int(64, False, 'found')
+        hit.cons.add_le(pos, r.u)
+        hit.cons.add_lt(r.u, n)
+        if not interp.infeasible(hit, r.u, n):
+            # (bounds only: a search that stops somewhere inside the text does not count for the coverage clauses - the
+            # frontier stays where it is, and a walk that follows is judged on its own)
+            hook, interp.access_hook = interp.access_hook, None
+            try:
+                interp.check_access(hit, PtrVal(o.id, pos), r.u + 1 - pos, i, 'load')
+            finally:
+                interp.access_hook = hook
+            if not hit.bottom:
+                out.append((hit, r))
+        rest = n - pos
+        if not miss.cons.entails_le(rest, 0):
+            m2 = miss.fork()
+            m2.cons.add_le(1, rest)
+            interp.check_access(m2, PtrVal(o.id, pos), rest, i, 'load')
+            if not m2.bottom:
+                out.append((m2, npos))
+            miss.cons.add_le(rest, 0)
+            if not interp.infeasible(miss, rest, Lin(0)):
+                out.append((miss, npos))
+        else:
+            out.append((miss, npos))
+        return out
 
 
 # ----------------------------------------------------------------------------------------------------------------
